@@ -4,45 +4,45 @@ usage: tools/design_table.py <quick log> <thorough log>   -> prints the Markdown
 import re, sys
 
 E = {
- "C01": ("declaration atoms (19 type-spec classes x attribute sets x entity-decl forms x 4 host scopes, two-literal declarations); all sequences of <=2/3 of 14 specification items x <=1/2 of 7 procedure shapes x 4 unit kinds; executable look-alikes incl. variables named like whole keywords; <=3 program units per file (block data, nested submodules both name orders); INCLUDE-is-transparent family (same-named include files in two directories, 5 spellings); each x every <=1/2 non-default spelling choices (keyword / identifier case, END forms incl. labelled, `::`, attribute as statement, kind spellings, blanks, byte-order mark)",
+ "C01": ("declaration atoms (20 type-spec classes (old-style selectors with blanks, a literal inside a kind) x attribute sets x entity-decl forms x 4 host scopes, two-literal declarations); all sequences of <=2/3 of 14 specification items x <=1/2 of 9 procedure shapes (incl. prefix-typed results with attribute statements beside implicit dummies) x 4 unit kinds; executable look-alikes incl. variables named like whole keywords; <=3 program units per file (block data, nested submodules both name orders); INCLUDE-is-transparent family (same-named include files in two directories, 5 spellings); each x every <=1/2 non-default spelling choices (keyword / identifier case, END forms incl. labelled, `::`, attribute as statement, kind spellings, blanks, byte-order mark)",
          "expected canonical tree computed from the abstract model; FORD must not fail"),
- "C02": ("(1) BFS over all sequences of <=4/5 physical lines from 34 shapes, exact product-state de-duplication; (2) all sequences of <=4/5 tokens over 27 tokens; (3) ordered pairs / triples of 16 literals in a declaration + PRINT + CALL, `lower` off/on; (4) 7x3 quote-rich documentation texts at 13 positions of a module",
+ "C02": ("(1) BFS over all sequences of <=4/5 physical lines from 37 shapes (incl. `!*` / `!|` blocks, indented `#` lines), exact product-state de-duplication; (2) all sequences of <=4/5 tokens over 27 tokens; (3) ordered pairs / triples of 16 literals in a declaration + PRINT + CALL, `lower` off/on, 9..23 literals in one statement; (4) 7x3 quote-rich documentation texts at 13 positions of a module",
          "reference free-form lexer; literal and documentation text verbatim; no spurious entity / call"),
- "C03": ("40 documentable statements: all-in-one-style x 4 marker sets (also with the specification part moved to an include file); every source-adjacent pair x 4x4 styles x inline / own-line x separators; singles; in-comment gaps; all sequences of <=3/4 of 19 doc-block kinds through the real MetaMarkdown; first-block family; 13 metadata keys x 16 entity kinds (summary also as rendered); rendered-pages family",
+ "C03": ("40 documentable statements: all-in-one-style x 4 marker sets (also with the specification part moved to an include file); every source-adjacent pair x 4x4 styles x inline / own-line x separators; singles; in-comment gaps; all sequences of <=3/4 of 19 doc-block kinds through the real MetaMarkdown; first-block family; 13 metadata keys x 16 entity kinds (summary also as rendered); rendered-pages family; comments of page-less procedures shown on other pages (6 entities x 3 display settings)",
          "tracer words: each entity's doc == its own words; visible text has every word once, in order; no foreign footnote"),
- "C04": ("default x position x attribute x access statement x position x 12 kinds (incl. constructor pair, enumerator, namelist group, interface bodies named by the statement) x identifier case / blanks in generic specs (singles); ordered pairs over a reduced value set; 5 contexts; type component / binding product; attribute lists; submodules",
+ "C04": ("default x position x attribute x access statement x position x 13 kinds (incl. constructor pair, enumerator, namelist group, interface bodies named by the statement, relational operators in both spellings) x identifier case / blanks in generic specs (singles); ordered pairs over a reduced value set; 5 contexts; type component / binding product; attribute lists; submodules (+ separate module procedures in 3 forms)",
          "reference accessibility rule"),
- "C05": ("display in 8 subsets (+none) x proc_internals x hide_undoc x <=1/2 metadata overrides over 5 sites (incl. keyword case, `protected` alone); 35 tracer-carrying entities (incl. inherited members across modules, namelist of a private procedure, local enumeration, common block); graphs as tables",
+ "C05": ("display in 8 subsets (+none) x proc_internals x hide_undoc x <=1/2 metadata overrides over 5 sites (incl. keyword case, `protected` alone); 42 tracer-carrying entities in two source files (incl. inherited members across modules, namelist of a private procedure and of its internal procedure, local enumeration, common block); graphs as tables",
          "reference selection + presence / absence of tracers on all pages and in the search index, no link to unselected pages, links resolve"),
- "C06": ("topologies single / chain2 / chain3 / diamond / fan / double USE x default access x 11 USE forms per edge x 8 consumer scope kinds (incl. submodule, procedure of a submodule) x 8 entity kinds (incl. operator, constructor pair) x every file-order permutation; third-party module named first; project modules named like library modules",
+ "C06": ("topologies single / chain2 / chain3 / diamond / fan / double USE x default access x 11 USE forms per edge x 8 consumer scope kinds (incl. submodule, procedure of a submodule) x 8 entity kinds (incl. operator, constructor pair) x every file-order permutation; third-party module named first; project modules named like library modules; types extended through an imported local name (6 import forms x child name x 3 scopes)",
          "reference USE semantics: scope tables, export tables, resolved slots; identical for every permutation"),
  "C07": ("14 slot kinds (incl. cross-kind procedure pointers, deferred binding names, generic named like its specific) x referencing scope x every subset (quick: <=3) of declaration placements x 3 case variants x sibling order x 8 USE forms x direct / re-export; submodule chains depth 1-2 (+ same-named submodule of another module) x every file order; interface bodies with own USE (5 block kinds x 3 slots x 8 forms x re-export); generic bindings along type-extension chains",
          "reference scoping resolver (a marker identifies the declaration found)"),
  "C08": ("55 statement forms x 18 expression atoms in either slot x 4 calling-unit kinds; nested expressions; every standard intrinsic (169 + 13); fixed form: 5 statements x every token boundary (and pairs) as continuation break x 9 kinds of lines in between x marks; thorough: both slots jointly + all ordered statement pairs",
          "call set from the abstract statement: extra / missing / duplicate / unresolved"),
- "C09": ("full product of 8 cardinalities (1 944 shapes) x incl_src on/off + 18 richer shapes x <=1/2 deviations over 14 option sites (graph modes, outdir placement, cwd, extra_files, ...) + search on x page depth x graphs",
+ "C09": ("full product of 8 cardinalities (1 944 shapes) x incl_src on/off + 18 richer shapes x <=1/2 deviations over 15 option sites (graph modes, outdir placement, cwd, extra_files, front texts + footnotes, ...) + search on x page depth x graphs",
          "link resolver over every page and the search index; no absolute output path; moved tree re-checked (thorough)"),
  "C10": ("BFS over <=3/4 `get_name` requests (16 names x 8 classes x 2 entities), exact-state de-dup; every single / pair (triples) of 26 name-relation fragments x 2 file orders (incl. saved graphs, `source: true` snippets, enumerators / dummy procedures)",
          "injectivity of entity -> (dir, case-folded stem); distinct output files / graph files, distinct anchors, anchors exist, tracer at URL, Read-more target, src copy identity, own source text"),
  "C11": ("91 reference spellings x 18 contexts (entity kinds, project file, project summary / author description, pages at 3 depths) x 2 layouts x option sets; every occurrence on every page",
          "reference resolver (documented lookup order); href resolved from each page; absent / hidden targets stay text"),
- "C12": ("3 multi-file projects x option sets x (all file-order permutations + every <=1/2 deviating set-iteration / directory-listing events) + stale-output histories x output directory placement (also a project path with glob characters) + real-process runs under 3/8 hash seeds x parallel x graph_dir",
+ "C12": ("4 multi-file projects (one using two external libraries with equal names) x option sets x (all file-order permutations + every <=1/2 deviating set-iteration / directory-listing events) + stale-output histories x output directory placement (also a project path / an output directory name with glob characters) + real-process runs under 3/8 hash seeds x parallel x graph_dir",
          "byte equality of all files and DOT sources with the default schedule"),
- "C13": ("all USE DAGs on 3 modules x submodule chains x users (+ own `omp_lib`); extension forests x composition subsets; all 512 call digraphs (+program / generic / driver without USE / internal functions only) x maxdepth x maxnodes x show_proc_parent; `graph: false`; per-entity limits; type-bound calls",
+ "C13": ("all USE DAGs on 3 modules x submodule chains x users (+ own `omp_lib`); extension forests x composition subsets; all 512 call digraphs (+program / generic / driver without USE / internal functions only) x maxdepth x maxnodes x show_proc_parent; `graph: false`; per-entity limits; type-bound calls; file graphs: all dependency sets over 4 files (+program), equal file names in two directories",
          "DOT node / edge sets == reference relation / reference hop expansion (forward and inverse); rendering rule; no dangling edge"),
- "C14": ("all sequences of <=3/4 of 39 fixed-form line classes (limit on/off, last line without terminator); model programs x {plain, comment styles, seq. field, inline doc, labels, every single break position, pairs, 3 extensions, preprocessed}; INCLUDE (limit on/off)",
+ "C14": ("all sequences of <=3/4 of 41 fixed-form line classes (limit on/off, last line without terminator); model programs x {plain, comment styles, seq. field, inline doc, labels, every single break position, pairs, 3 extensions, preprocessed (also with a sequence field)}; INCLUDE (limit on/off)",
          "reference fixed-form lexer; free / fixed tree equality incl. docs and calls"),
- "C15": ("every settings field x value classes x 6 formats (md, toml, --config, md beside a foreign fpm.toml x2, md with BOM) x 3 cwds for paths; keyword case / gaps / quoted URLs; all pairs (thorough); 17 CLI flags x 4 layerings (+ derived exclude_dir); file-selection options x cwds; unknown keys; ill-typed values",
+ "C15": ("every settings field x value classes x 6 formats (md, toml, --config, md beside a foreign fpm.toml x2, md with BOM) x 3 cwds for paths; keyword case / gaps / quoted URLs; all pairs (thorough); 17 CLI flags x 4 layerings (+ derived exclude_dir); file-selection options x cwds (sources inside and beside the project directory); unknown keys; ill-typed values",
          "cross-format equality + typed reference value; precedence; messages"),
- "C16": ("histories build A / rebuild A / damage modules.json / build B (twice, rebuild between, two names, other cwds): 6 option sets of A x 4 external forms x reference styles; library of 7 modules (same names twice, renamed re-exports, interface-body namesake); clashes; 11 damages + truncation at structural boundaries; two libraries with equal names x forms x order x B's own project_url",
+ "C16": ("histories build A / rebuild A / damage modules.json / build B (twice, rebuild between, two names, other cwds): 6 option sets of A x 4 external forms x reference styles; library of 8 modules (same names twice, renamed re-exports, interface-body namesake, undocumented entities); B binds and extends the library's entities, hide_undoc; clashes; 18 damages + truncation at structural boundaries; two libraries with equal names x forms x order x B's own project_url; chain of three projects",
          "export exactness; external links resolve in A and lead to the module that is used; local wins; B never aborts"),
- "C17": ("all directory trees with <=3/4 entries over 9 kinds (+5 over 4 kinds) x ordering (5 modes) x copy_subdir modes; project_url as URL; Latin-1 project; byte-order marks",
+ "C17": ("all directory trees with <=3/4 entries over 9 kinds (+5 over 4 kinds) x ordering (6 modes) x copy_subdir modes (6); project_url as URL; Latin-1 project; byte-order marks",
          "reference mirror (pages, copies, navigation order) + link resolver from every depth; fragments kept; text intact"),
  "C18": ("all sequences of <=2/3 of 19 HTML / Markdown-significant pieces x 12 declaration sites; relational, bound / kind expressions x 6 sites; array-spec / length suffixes x 3 sites; procedure prefixes, typed function prefixes, BIND before RESULT; `lower` option",
          "row text verbatim; DOM shape equals the neutral literal's"),
- "C19": ("17 placements x 15 option sets fault-free (symlinks in copied directories, sub-pages / copy_subdir outside the page directory, force); OSError at EVERY k-th mutating FS event for 7 / ~60 combinations (audit hook; link-following events judged by target)",
+ "C19": ("18 placements x 16 option sets fault-free (symlinks in copied directories and in old output, a real preprocessor with shell characters in macros, sub-pages / copy_subdir outside the page directory, force); OSError at EVERY k-th mutating FS event for 7 / ~60 combinations (audit hook; link-following events judged by target)",
          "all events inside output / graph dir; outside snapshot (content, mode, mtime) unchanged; refusal first"),
- "C20": ("truncation at every statement, each END deleted, CONTAINS variants, all splices, 51 malformed inputs (incl. self-referential entities, console markup) x 4 positions; same-name broken copies; include stratum; shared damaged include x includers; FORD's whole run; rerun history",
+ "C20": ("truncation at every statement, each END deleted, CONTAINS variants, all splices, 53 malformed inputs (incl. self-referential entities, files including themselves, console markup) x 4 positions; same-name broken copies; include stratum; shared damaged include x includers; FORD's whole run (also unreadable extra-filetype files); rerun history",
          "differential vs. run without the file; CPU watchdog; rejected file named, nothing leaked, later stages complete, no stale pages"),
 }
 LINE = re.compile(r"^(C\d\d) exit=(\d) violations=(\d+)\s+([\d.]+)s .*?evaluations=(\d+) states=(\d+) transitions=(\d+) distinct_nontrivial=(\d+)")
